@@ -193,6 +193,7 @@ class Base58Check(Driver):
         self.maxlen = 40 if tier == "quick" else 80
         self.contents = ["seq", "seed"] if tier == "quick" else ["seq", "seed", "ff"]
         self.bound = dict(payload_lengths="0..%d" % self.maxlen, contents=self.contents, zero_classes=["none", "one", "all"],
+                          checksum_leading_zero="all-zero and zero-prefixed payloads of length <= %d whose checksum starts with 00" % (2500 if tier == "quick" else 20000),
                           corruptions="4x255 checksum bytes; every position x 57 other characters; every deletion")
 
     def payload(self, n, content, zeros):
@@ -209,6 +210,13 @@ class Base58Check(Driver):
 
     def units(self):
         yield dict(fam="short")
+        # payloads whose CHECKSUM starts with a zero byte (found with the reference): the leading-zero rule then spans the
+        # payload/checksum boundary.  All-zero payloads and payloads with a non-zero body.
+        nmax = 2500 if self.tier == "quick" else 20000
+        for n in range(0, nmax + 1):
+            for p in (b"\x00" * n, b"\x00" * (n % 7) + fill(n // 4 + 1, SEQ32)):
+                if R58.checksum(p)[0] == 0:
+                    yield dict(fam="chk0", p=p.hex())
         for n in range(0, self.maxlen + 1):
             seen = []
             for zeros in ("none", "one", "all"):
@@ -228,6 +236,12 @@ class Base58Check(Driver):
         p = bytes.fromhex(unit["p"])
         case = dict(p=unit["p"], kind="valid")
         yield case, self.run(case)
+        if unit["fam"] == "chk0":
+            text = R58.encode_check(p)
+            for s2 in (text[1:], "1" + text, text[:-1], text + "1", text[2:], "11" + text):
+                case = dict(s=s2, kind="chk0-neighbour")
+                yield case, self.run(case)
+            return
         for i in range(4):
             for x in range(1, 256):
                 case = dict(p=unit["p"], kind="chk", i=i, x=x)
@@ -444,7 +458,10 @@ class Grid(Driver):
 
     def __init__(self, tier, seed):
         Driver.__init__(self, tier, seed)
-        self.hrps = ["bc", "tb", "a", "t1est2", "bcrt", "x" * 18, "h" * 50, "?", "y" * 83]
+        # BIP173 allows every character 33..126 in the human-readable part: punctuation next to the upper-case band
+        # (@ [ \\ ] ^ _) and next to the lower-case band (` { | } ~), digits, '!' and '~' (the ends of the range)
+        self.hrps = ["bc", "tb", "a", "t1est2", "bcrt", "x" * 18, "h" * 50, "?", "y" * 83,
+                     "a_b", "x[y", "x{y", "@", "`", "~", "!", "^z|", "\\]}"]
         self.versions = list(range(17)) + [17, 31]
         self.fills = ["seed"] if tier == "quick" else ["seed", "00", "ff"]
         self.flip_hrps = ["bc"] if tier == "quick" else ["bc", "tb", "t1est2", "x" * 18]
@@ -599,12 +616,12 @@ class Grid(Driver):
 
 # ====================================================================== error detection on the real decoders
 
-HRP_ALT = "abcdefghijklmnopqrstuvwxyz0123456789"
+HRP_ALT = "abcdefghijklmnopqrstuvwxyz0123456789!?@[\\]^_`{|}~"
 
 
 class Errors(Driver):
     id = "C11.errors"
-    rule = ("every substitution of 1 and 2 positions (data symbols: 31 alternatives; hrp characters: 35 alternatives) of valid "
+    rule = ("every substitution of 1 and 2 positions (data symbols: 31 alternatives; hrp characters: 48 alternatives incl. punctuation) of valid "
             "addresses, and of <= 4 positions of the data part of a 10-character string (thorough): bech32_decode and decode must "
             "give the reference decoder's verdict - rejected, unless the corrupted string is itself a valid encoding under the other "
             "checksum constant; a same-constant acceptance would be flagged; non-trivial = all (every case is a corrupted string)")
@@ -614,13 +631,13 @@ class Errors(Driver):
         p20 = seed_bytes(seed, "C11.err.p20", 20)
         p32 = seed_bytes(seed, "C11.err.p32", 32)
         self.addrs = [("bc", RB.segwit_encode("bc", 16, b"\x75\x1e")), ("bc", RB.segwit_encode("bc", 0, p20)), ("tb", RB.segwit_encode("tb", 1, p32)),
-                      ("bc", RB.segwit_encode("bc", 0, p32))]
+                      ("bc", RB.segwit_encode("bc", 0, p32)), ("x{y_", RB.segwit_encode("x{y_", 0, p20))]
         # (address index, max weight)
-        self.plan = [(0, 2), (1, 2), (2, 1), (3, 1)] if tier == "quick" else [(0, 2), (1, 2), (2, 2), (3, 2)]
+        self.plan = [(0, 2), (1, 2), (2, 1), (3, 1), (4, 1)] if tier == "quick" else [(0, 2), (1, 2), (2, 2), (3, 2), (4, 2)]
         self.shorts = [("a", RB.bech32_encode("a", [3, 14], RB.BECH32), 2 if tier == "quick" else 4),
                        ("a", RB.bech32_encode("a", [3, 14], RB.BECH32M), 2 if tier == "quick" else 3)]
         self.bound = dict(addresses=[a for _, a in self.addrs], weights={self.addrs[i][1]: w for i, w in self.plan},
-                          short_strings={s: w for _, s, w in self.shorts}, alternatives="data symbol: 31, hrp character: 35")
+                          short_strings={s: w for _, s, w in self.shorts}, alternatives="data symbol: 31, hrp character: 48 (letters, digits, punctuation)")
 
     _base_spec = {}
 
